@@ -44,7 +44,7 @@ ASSUMPTIONS = [
     "delpot = cutoff/(ngrid-4) is undefined for 4 rows)",
     "a cutoff that is not a whole multiple of the step is not constrained by the property and is not generated",
 ]
-REQUIRED = {"variables_named_like_options:not_given_in_tabulation": 5, "r:cutoff_dr": 40, "r:nr_dr": 15, "r:nr_cutoff": 15, "rho:cutoff_dr": 15, "reject": 30, "fine_steps": 15, "reject:all_three": 4, "reject:step_alone": 4, "reject:nr<=0": 4, "reject:dr<=0": 4, "reject:cutoff<=0": 4, "reject:nr_not_int": 4, "reject:dr_not_number": 4, "reject:all_three_one_zero": 4, "reject:not_finite": 4, "reject:single_row": 4, "written": 60,
+REQUIRED = {"grid:inexact_quotient:LAMMPS": 3, "variables_named_like_options:not_given_in_tabulation": 5, "r:cutoff_dr": 40, "r:nr_dr": 15, "r:nr_cutoff": 15, "rho:cutoff_dr": 15, "reject": 30, "fine_steps": 15, "reject:all_three": 4, "reject:step_alone": 4, "reject:nr<=0": 4, "reject:dr<=0": 4, "reject:cutoff<=0": 4, "reject:nr_not_int": 4, "reject:dr_not_number": 4, "reject:all_three_one_zero": 4, "reject:not_finite": 4, "reject:single_row": 4, "written": 60,
             "r:default": 10}
 TARGETS = ["LAMMPS", "DLPOLY", "GULP", "excel", "setfl", "setfl_fs", "DL_POLY_EAM", "DL_POLY_EAM_fs",
            "excel_eam", "excel_eam_fs", "eam_adp"]
